@@ -961,6 +961,15 @@ func (p *Policy) validURL(rawurl string) (string, bool) {
 			return "", false
 		}
 
+		// A relative reference whose path begins with "//" (possible only
+		// through an encoded slash, as in "/%2Fhost/<") is written back as
+		// "//host/%3C" when it is normalised, which is a reference to another
+		// host and may not even parse again; it does not survive
+		// normalisation, so it is not valid.
+		if u.Scheme == "" && u.Host == "" && strings.HasPrefix(u.String(), "//") {
+			return "", false
+		}
+
 		if u.Scheme != "" {
 			urlPolicies, ok := p.allowURLSchemes[u.Scheme]
 			if !ok {
